@@ -1,5 +1,7 @@
 import Iec.Model.Dispatch
 import Iec.Lemmas.Bits
+import Iec.Model.CliCmd
+import Iec.Lemmas.Layout
 /-
 C09 — Command dispatch and mirrored negative responses (CS104 and CS101 slave).
 
@@ -18,8 +20,13 @@ string, every handler set and every handler return value - the quantifier of the
 by case analysis of the decision function.  Tie: differential over type 0..255 x COT 0..63 x
 flags x IOA zero/non-zero x complete/truncated x handler subsets, both stacks, each case in
 an exactly sized heap block under ASan, plus the model-free "at most one response" oracle.
-**Partial**: the client-side command builders (cs104_connection.c:1137-1375,
-cs101_master.c:330-436) are not modelled.
+Client side (section Client): the six hand-written system-command builders of cs104_connection.c are modelled
+(`Iec.CliCmd.build`, tied by the `c.cmd` operations of the client differential) and PROVED to reach the server
+callback with identical parameters: `read_reaches_callback`, `interrogation_reaches_callback`,
+`counter_reaches_callback`, `clocksync_reaches_callback` (builder octets -> `handle104` -> callback with the same
+address / qualifier / time, for every legal size configuration, common address, originator address and parameter
+value).  **Partial**: `sendProcessCommand(Ex)` and the CS101 master's builders (cs101_master.c:330-436) build through
+the ASDU codec (C01/C12) and have no theorem of their own.
 -/
 namespace Iec.Props.C09
 open Iec.Dispatch Iec.Asdu Iec.Layout
@@ -144,5 +151,135 @@ example :
     let b : Asdu := ⟨p, [100, 1, 3, 0, 1, 0, 0, 0, 0, 20]⟩
     handle104 a { ic := some true } = some [.cb "ic" 20] ∧
     handle104 b { ic := some true } = some [.resp [100, 1, 0x6d, 0, 1, 0, 0, 0, 0, 20]] := by decide
+
+/-! ### client side: what the command builders of cs104_connection.c put on the wire reaches the callback -/
+section Client
+open Iec.CliCmd
+
+theorem ioaBytes_eq (p : Params) (hl : p.Legal) (ioa : Nat) : ioaBytes p ioa = leBytes p.sizeOfIOA ioa := by
+  obtain ⟨_, _, h3⟩ := hl
+  rcases h3 with h | h | h <;> simp [ioaBytes, h, leBytes] <;> omega
+
+theorem ident_length (p : Params) (hl : p.Legal) (oa t v cot ca : Nat) : (ident p oa t v cot ca).length = p.hdrLen := by
+  obtain ⟨h1, h2, _⟩ := hl
+  rcases h1 with h1 | h1 <;> rcases h2 with h2 | h2 <;> simp [ident, Params.hdrLen, h1, h2]
+
+/-- type, cause and payload of an ASDU that starts with `ident … ++ rest` -/
+theorem built_header (p : Params) (hl : p.Legal) (oa t cot ca : Nat) (rest : List Nat) (ht : t < 256) (hc : cot < 64) :
+    (⟨p, ident p oa t 1 cot ca ++ rest⟩ : Asdu).typeId = t ∧ (⟨p, ident p oa t 1 cot ca ++ rest⟩ : Asdu).cot = cot ∧
+    (⟨p, ident p oa t 1 cot ca ++ rest⟩ : Asdu).payload = rest := by
+  refine ⟨?_, ?_, ?_⟩
+  · simp [Asdu.typeId, Asdu.byte, ident]; omega
+  · have hm : cot % 256 = cot := by omega
+    have h6 : ∀ x, x < 64 → x &&& 0x3f = x := by decide +kernel
+    simp [Asdu.cot, Asdu.byte, ident, hm, h6 cot hc]
+  · unfold Asdu.payload
+    exact List.drop_left' (ident_length p hl oa t 1 cot ca)
+
+/-- the element a `.single`-category decoder reads from `leBytes sizeOfIOA ioa ++ fields` -/
+theorem single_element (p : Params) (e : TypeEntry) (ioa : Nat) (fb : List Nat) (vs : List Nat)
+    (hio : ioa < 256 ^ p.sizeOfIOA) (hfix : fixedSize e.fields = fb.length) (hdec : decodeFields e.fields fb = some (vs, [])) :
+    decodeObj p e (leBytes p.sizeOfIOA ioa ++ fb) 0 true = some (ioa, vs) := by
+  unfold decodeObj
+  have hlen : ¬ (0 + (if true = true then p.sizeOfIOA else 0) + fixedSize e.fields > (leBytes p.sizeOfIOA ioa ++ fb).length) := by
+    simp [leBytes_length, hfix]
+  rw [if_neg hlen]
+  simp only [List.drop_zero, if_true]
+  rw [List.drop_left' (leBytes_length _ _), hdec]
+  simp [parseIOA, List.take_left' (leBytes_length _ _), leVal_leBytes _ _ hio]
+
+/-- **read command**: `CS104_Connection_sendReadCommand(ca, ioa)` reaches the read handler with the same object
+address, for every size configuration and every address that fits the configured width -/
+theorem read_reaches_callback (p : Params) (hl : p.Legal) (oa ca ioa : Nat) (hio : ioa < 256 ^ p.sizeOfIOA)
+    (hs : Handlers) (r : Bool) (hr : hs.rd = some r) :
+    handle104 ⟨p, build p oa (.read ca ioa)⟩ hs =
+      some (tail ⟨p, build p oa (.read ca ioa)⟩ hs [.cb "rd" ioa] r) := by
+  obtain ⟨h1, h2, h3⟩ := built_header p hl oa 102 5 ca (ioaBytes p ioa) (by decide) (by decide)
+  have hb : build p oa (.read ca ioa) = ident p oa 102 1 5 ca ++ ioaBytes p ioa := rfl
+  have hg : (⟨p, build p oa (.read ca ioa)⟩ : Asdu).getElement 0 = some (ioa, []) := by
+    unfold Asdu.getElement
+    rw [hb, h1, show lookup 102 = some ⟨102, "C_RD_NA_1", .single, [], 0⟩ from rfl]
+    simp only
+    rw [h3, ioaBytes_eq p hl]
+    have := single_element p ⟨102, "C_RD_NA_1", .single, [], 0⟩ ioa [] [] hio rfl rfl
+    simpa using this
+  unfold handle104
+  rw [hb] at hg ⊢
+  simp only [h1, show (102 : Nat) ≠ 100 by decide, show (102 : Nat) ≠ 101 by decide, if_false, if_true]
+  rw [hr, callback_once _ true [5] r "rd" (·.1) false (ioa, []) (by rw [h2]; decide) hg (by intro _ h; cases h)]
+  rfl
+
+/-- **interrogation command** (cause activation or deactivation) reaches the interrogation handler with the same
+qualifier -/
+theorem interrogation_reaches_callback (p : Params) (hl : p.Legal) (oa cot ca qoi : Nat) (hc : cot = 6 ∨ cot = 8) (hq : qoi < 256)
+    (hs : Handlers) (r : Bool) (hr : hs.ic = some r) :
+    handle104 ⟨p, build p oa (.interrogation cot ca qoi)⟩ hs =
+      some (tail ⟨p, build p oa (.interrogation cot ca qoi)⟩ hs [.cb "ic" qoi] r) := by
+  have hc64 : cot < 64 := by rcases hc with h | h <;> omega
+  obtain ⟨h1, h2, h3⟩ := built_header p hl oa 100 cot ca (ioaBytes p 0 ++ [qoi % 256]) (by decide) hc64
+  have hb : build p oa (.interrogation cot ca qoi) = ident p oa 100 1 cot ca ++ (ioaBytes p 0 ++ [qoi % 256]) := by
+    simp [build]
+  have hg : (⟨p, build p oa (.interrogation cot ca qoi)⟩ : Asdu).getElement 0 = some (0, [qoi]) := by
+    unfold Asdu.getElement
+    rw [hb, h1, show lookup 100 = some ⟨100, "C_IC_NA_1", .single, [.le 1], 0⟩ from rfl]
+    simp only
+    rw [h3, ioaBytes_eq p hl]
+    have hm : qoi % 256 = qoi := by omega
+    rw [hm]
+    exact single_element p ⟨100, "C_IC_NA_1", .single, [.le 1], 0⟩ 0 [qoi] [qoi] (Nat.pow_pos (by decide)) rfl
+      (by simp [decodeFields, leVal])
+  unfold handle104
+  rw [hb] at hg ⊢
+  simp only [h1, if_true]
+  rw [hr, callback_once _ true [6, 8] r "ic" v0 true (0, [qoi]) (by rw [h2]; rcases hc with h | h <;> subst h <;> decide) hg (by intros; rfl)]
+  rfl
+
+/-- **counter interrogation command** reaches its handler with the same qualifier -/
+theorem counter_reaches_callback (p : Params) (hl : p.Legal) (oa cot ca qcc : Nat) (hc : cot = 6 ∨ cot = 8) (hq : qcc < 256)
+    (hs : Handlers) (r : Bool) (hr : hs.ci = some r) :
+    handle104 ⟨p, build p oa (.counter cot ca qcc)⟩ hs =
+      some (tail ⟨p, build p oa (.counter cot ca qcc)⟩ hs [.cb "ci" qcc] r) := by
+  have hc64 : cot < 64 := by rcases hc with h | h <;> omega
+  obtain ⟨h1, h2, h3⟩ := built_header p hl oa 101 cot ca (ioaBytes p 0 ++ [qcc % 256]) (by decide) hc64
+  have hb : build p oa (.counter cot ca qcc) = ident p oa 101 1 cot ca ++ (ioaBytes p 0 ++ [qcc % 256]) := by
+    simp [build]
+  have hg : (⟨p, build p oa (.counter cot ca qcc)⟩ : Asdu).getElement 0 = some (0, [qcc]) := by
+    unfold Asdu.getElement
+    rw [hb, h1, show lookup 101 = some ⟨101, "C_CI_NA_1", .single, [.le 1], 0⟩ from rfl]
+    simp only
+    rw [h3, ioaBytes_eq p hl]
+    have hm : qcc % 256 = qcc := by omega
+    rw [hm]
+    exact single_element p ⟨101, "C_CI_NA_1", .single, [.le 1], 0⟩ 0 [qcc] [qcc] (Nat.pow_pos (by decide)) rfl
+      (by simp [decodeFields, leVal])
+  unfold handle104
+  rw [hb] at hg ⊢
+  simp only [h1, show (101 : Nat) ≠ 100 by decide, if_false, if_true]
+  rw [hr, callback_once _ true [6, 8] r "ci" v0 true (0, [qcc]) (by rw [h2]; rcases hc with h | h <;> subst h <;> decide) hg (by intros; rfl)]
+  rfl
+
+/-- **clock synchronisation command** reaches the clock handler with the same seven time octets (as the
+little-endian number the decoder stores) -/
+theorem clocksync_reaches_callback (p : Params) (hl : p.Legal) (oa ca : Nat) (time : List Nat) (ht : time.length = 7)
+    (hs : Handlers) (r : Bool) (hr : hs.cs = some r) :
+    ∃ rest, handle104 ⟨p, build p oa (.clockSync ca time)⟩ hs = some (.cb "cs" (leVal time) :: rest) := by
+  obtain ⟨h1, h2, h3⟩ := built_header p hl oa 103 6 ca (ioaBytes p 0 ++ time.take 7) (by decide) (by decide)
+  have hb : build p oa (.clockSync ca time) = ident p oa 103 1 6 ca ++ (ioaBytes p 0 ++ time.take 7) := by
+    simp [build]
+  have htk : time.take 7 = time := List.take_of_length_le (by omega)
+  have hg : (⟨p, build p oa (.clockSync ca time)⟩ : Asdu).getElement 0 = some (0, [leVal time]) := by
+    unfold Asdu.getElement
+    rw [hb, h1, show lookup 103 = some ⟨103, "C_CS_NA_1", .single, [.le 7], 0⟩ from rfl]
+    simp only
+    rw [h3, ioaBytes_eq p hl, htk]
+    exact single_element p ⟨103, "C_CS_NA_1", .single, [.le 7], 0⟩ 0 time [leVal time] (Nat.pow_pos (by decide))
+      (by simp [fixedSize, ht]) (by simp [decodeFields, ht, List.take_of_length_le, List.drop_of_length_le])
+  unfold handle104
+  rw [hb] at hg ⊢
+  simp only [h1, h2, show (103 : Nat) ≠ 100 by decide, show (103 : Nat) ≠ 101 by decide, show (103 : Nat) ≠ 102 by decide,
+    if_false, if_true, hr, hg]
+  cases r <;> simp [v0]
+
+end Client
 
 end Iec.Props.C09
